@@ -64,9 +64,14 @@ type Hist struct {
 	// forever (2.4 s / >1 GiB per evaluation). HeavyFull=false: lengths {0xFFFFFFFC, 0xFFFFFFFF} with the nil
 	// provider only; true: all four lengths with providers {nil, -1} (v1 recovery ignores the commit offset).
 	HeavyFull bool `json:"heavyFull,omitempty"`
-	Part      int  `json:"part,omitempty"` // corrupt mode: evaluate images with index % Parts == Part
-	Parts     int  `json:"parts,omitempty"`
+	// runs mode: run starts at every byte offset (thorough) instead of record/payload starts, +-1 and every 8th offset
+	AllOffsets bool `json:"allOffsets,omitempty"`
+	Part       int  `json:"part,omitempty"` // corrupt mode: evaluate images with index % Parts == Part
+	Parts      int  `json:"parts,omitempty"`
 }
+
+// cleanLog: the base image is a cleanly closed log of K synced entries (single-field and run corruption)
+func (h Hist) cleanLog() bool { return h.Mode == "corrupt" || h.Mode == "runs" }
 
 func (h Hist) ID() string {
 	if h.Mode == "ctrl" {
@@ -77,6 +82,9 @@ func (h Hist) ID() string {
 		s += fmt.Sprintf("m%d/%s", h.M, h.Sync)
 	} else if h.Full256 {
 		s += "/full256"
+	}
+	if h.Mode == "runs" && h.AllOffsets {
+		s += "/all-offsets"
 	}
 	if h.Parts > 1 {
 		s += fmt.Sprintf("/part%d", h.Part)
@@ -196,7 +204,7 @@ func runHistory(h Hist) *base {
 		vsize = 3000
 	}
 	b.n = h.K + h.M
-	if h.Mode == "corrupt" {
+	if h.cleanLog() {
 		b.n = h.K
 	}
 	ci := 0
@@ -282,7 +290,7 @@ func runHistory(h Hist) *base {
 	if w.LastOffset() != b.lastSynced {
 		infra("LastOffset %d, expected %d", w.LastOffset(), b.lastSynced)
 	}
-	if h.Mode == "corrupt" {
+	if h.cleanLog() {
 		if err := w.Close(); err != nil {
 			infra("close: %v", err)
 		}
@@ -314,7 +322,7 @@ func runHistory(h Hist) *base {
 		si.txn = fmt.Sprintf("%d%s", si.base, b.ext)
 		si.idx = fmt.Sprintf("%d%s", si.base, b.iext)
 		si.flushed = flushed[si.base]
-		si.closed = s < nseg-1 || h.Mode == "corrupt"
+		si.closed = s < nseg-1 || h.cleanLog()
 		for i := s * h.Cap; i < b.n && i < (s+1)*h.Cap; i++ {
 			si.recs = append(si.recs, recInfo{off: int64(i), pos: (i - s*h.Cap) * b.rs, plen: len(b.payloads[i])})
 		}
@@ -371,11 +379,13 @@ type image struct {
 	closed bool              // corrupt: the damaged file belongs to a closed (read-only) segment
 	zeroed bool              // corrupt: the record's length field reads 0 after the damage
 	// crash: which never-synced artefacts of a rollover are incomplete in this image
-	closedTailMissing bool // a closed (rolled-over) segment lacks bytes it had when it was closed, or its file is absent
-	idxBad            bool // the index file of a closed segment is absent or short
-	idxShort          bool // ... short (a prefix)
-	idxAbsent         bool // ... absent
-	heavy             bool // v1 length field >= 0xFFFFFFFC (4 GiB allocation / endless loop): see Hist.HeavyFull
+	closedTailMissing bool   // a closed (rolled-over) segment lacks bytes it had when it was closed, or its file is absent
+	idxBad            bool   // the index file of a closed segment is absent or short
+	idxShort          bool   // ... short (a prefix)
+	idxAbsent         bool   // ... absent
+	v1class           string // runs: which v1 structure the changed bytes touch first (header | payload | free)
+	zeroToEnd         bool   // runs: after the damage nothing but zeros from the first damaged record to the end of the segment
+	heavy             bool   // v1 length field >= 0xFFFFFFFC (4 GiB allocation / endless loop): see Hist.HeavyFull
 }
 
 func cloneFiles(m map[string][]byte) map[string][]byte {
@@ -669,9 +679,9 @@ func (b *base) judge(im *image, nilProv bool, commit int64, o *obs) (key, msg, o
 		switch {
 		case isIdxRegion(im.region):
 			key = "v1-index-damage-undetected"
-		case im.region == "payload":
+		case im.region == "payload" || im.v1class == "payload":
 			key = "v1-payload-damage-undetected"
-		case im.region == "free":
+		case im.region == "free" || im.v1class == "free":
 			key = "v1-garbage-after-tail-accepted"
 		default:
 			key = "v1-header-damage-undetected"
@@ -807,7 +817,17 @@ func (b *base) judge0(im *image, nilProv bool, commit int64, o *obs) (key, msg, 
 		det = where
 	}
 	dropDet := cdc + ":" + where + ":" + im.region
-	if im.zeroed {
+	if im.zeroed && im.zeroToEnd {
+		// the damaged record and everything after it read as zeros: looks exactly like the end of the log
+		dropDet = "zero-run-to-end-of-segment"
+		if im.entry == 0 {
+			// ... and nothing is left of the log at all: an empty segment 0, which is also what a new shard or a WAL
+			// cleared after a snapshot looks like
+			dropDet = "whole-log-zeroed"
+		}
+	} else if im.zeroed && strings.HasPrefix(im.region, "run-") {
+		dropDet = "zero-length-record:" + im.region
+	} else if im.zeroed {
 		dropDet = "zero-length-record"
 	} else if cdc == "v1" && !isIdxRegion(im.region) {
 		dropDet = "v1-header-damage"
@@ -1538,6 +1558,126 @@ func (en *engine) corruptImages() {
 	}
 }
 
+// ----- multi-byte damage: zero / 0xFF / pattern runs
+
+var runLengths = []int{2, 4, 8, 12, 13, 16, 24, 64, 512, 4096}
+
+func runFill(kind string, l int) []byte {
+	r := make([]byte, l)
+	for i := range r {
+		switch kind {
+		case "ff":
+			r[i] = 0xff
+		case "pattern":
+			r[i] = byte(i*31 + 7)
+		}
+	}
+	return r
+}
+
+// runImages overwrites [start, start+len) (clipped to the file) with zeros, 0xFF or the pattern i*31+7, for every
+// length of runLengths and every start offset of the used part of every segment file and of every index file.
+func (en *engine) runImages() {
+	b := en.b
+	en.provs = append(en.provs, provSpec{nilp: true})
+	for c := int64(-1); c <= int64(b.n)-1; c++ {
+		en.provs = append(en.provs, provSpec{c: c})
+	}
+	for si, s := range b.segs {
+		isClosed := si < len(b.segs)-1
+		c := b.cur[s.txn]
+		used := len(s.recs) * b.rs
+		starts := map[int]bool{}
+		if b.h.AllOffsets {
+			for p := 0; p < used; p++ {
+				starts[p] = true
+			}
+		} else {
+			step := 8
+			if b.h.Profile == "large" {
+				step = 512 // sectors
+			}
+			for p := 0; p < used; p += step {
+				starts[p] = true
+			}
+			for _, r := range s.recs {
+				for _, p := range []int{r.pos - 1, r.pos, r.pos + 1, r.pos + b.hdr - 1, r.pos + b.hdr, r.pos + b.hdr + 1} {
+					starts[p] = true
+				}
+			}
+			for p := pageSize; p < used; p += pageSize {
+				starts[p-1], starts[p], starts[p+1] = true, true, true
+			}
+		}
+		var ss []int
+		for p := range starts {
+			if p >= 0 && p < used {
+				ss = append(ss, p)
+			}
+		}
+		sort.Ints(ss)
+		for _, start := range ss {
+			for _, kind := range []string{"zero", "ff", "pattern"} {
+				for _, l := range runLengths {
+					end := min(start+l, len(c))
+					nb := append([]byte{}, c...)
+					copy(nb[start:end], runFill(kind, end-start))
+					first := -1
+					for p := start; p < end; p++ {
+						if nb[p] != c[p] {
+							first = p
+							break
+						}
+					}
+					if first < 0 {
+						continue // nothing changed
+					}
+					im := &image{kind: "corrupt", region: "run-" + kind, closed: isClosed,
+						desc: fmt.Sprintf("run:%s@%d+%d=%s", s.txn, start, l, kind)}
+					// first damaged entry and, for v1 attribution, the structure hit first
+					im.entry, im.v1class = int64(b.n), "free"
+					if first < used {
+						r := s.recs[first/b.rs]
+						im.entry = r.off
+						im.v1class = "payload"
+						for _, r2 := range s.recs { // any header byte changed?
+							for p := max(r2.pos, start); p < min(r2.pos+b.hdr, end); p++ {
+								if nb[p] != c[p] {
+									im.v1class = "header"
+								}
+							}
+						}
+						im.zeroed = binary.BigEndian.Uint32(nb[r.pos:]) == 0
+						im.zeroToEnd = !bytes.ContainsFunc(nb[r.pos:b.segSize], func(x rune) bool { return x != 0 })
+					}
+					files := cloneFiles(b.cur)
+					files[s.txn] = nb
+					im.files = files
+					en.emit(im)
+				}
+			}
+		}
+		// index file: every offset
+		ix := b.cur[s.idx]
+		for start := 0; start < len(ix); start++ {
+			for _, kind := range []string{"zero", "ff", "pattern"} {
+				for _, l := range runLengths {
+					end := min(start+l, len(ix))
+					nb := append([]byte{}, ix...)
+					copy(nb[start:end], runFill(kind, end-start))
+					if bytes.Equal(nb, ix) {
+						continue
+					}
+					files := cloneFiles(b.cur)
+					files[s.idx] = nb
+					en.emit(&image{kind: "corrupt", region: "idx-run-" + kind, entry: -1, closed: isClosed, files: files,
+						desc: fmt.Sprintf("run:%s@%d+%d=%s", s.idx, start, l, kind)})
+				}
+			}
+		}
+	}
+}
+
 func runJob(job Job) (res *JobResult) {
 	res = &JobResult{ID: job.Hist.ID(), Counters: map[string]int64{}, ViolCounts: map[string]int64{}, Exhaustive: true}
 	defer func() {
@@ -1555,7 +1695,7 @@ func runJob(job Job) (res *JobResult) {
 		en.deadline = time.Unix(job.Deadline, 0)
 	}
 	// the clean image itself must reopen to the full log (sanity of harness + oracle)
-	if job.Hist.Mode == "corrupt" && (job.Only == "" || job.Only == "clean") && job.StartAt == 0 {
+	if job.Hist.cleanLog() && (job.Only == "" || job.Only == "clean") && job.StartAt == 0 {
 		o := b.observe(en.root, &image{files: b.cur, kind: "corrupt"}, false, int64(b.n)-1)
 		if o.pan != nil || o.openErr != nil || o.last != int64(b.n)-1 || o.mismatch != "" || o.fwdN != b.n || o.revN != b.n {
 			key := "clean-image-does-not-reopen:" + b.h.Codec
@@ -1571,9 +1711,12 @@ func runJob(job Job) (res *JobResult) {
 	if job.Only == "clean" {
 		return res
 	}
-	if job.Hist.Mode == "crash" {
+	switch job.Hist.Mode {
+	case "crash":
 		en.crashImages()
-	} else {
+	case "runs":
+		en.runImages()
+	default:
 		en.corruptImages()
 	}
 	return res
@@ -1900,6 +2043,13 @@ func plan(tier string) []Hist {
 		// large records: page-straddling payloads, reduced positions
 		hs = append(hs, Hist{Mode: "corrupt", Codec: cd, Profile: "large", Cap: 2, K: 3, Sync: "each", HeavyFull: tier == "thorough"})
 	}
+	// multi-byte damage (zero / 0xFF / pattern runs) on the same clean shapes
+	for _, cd := range []string{"v2", "v1"} {
+		for _, x := range ncs {
+			hs = append(hs, Hist{Mode: "runs", Codec: cd, Profile: "small", Cap: x.cap, K: x.n, Sync: "each", AllOffsets: true}) // small images: every offset in both tiers
+		}
+		hs = append(hs, Hist{Mode: "runs", Codec: cd, Profile: "large", Cap: 2, K: 3, Sync: "each"}) // ~3 KiB records: sector/page/record boundaries only
+	}
 	// controller level (Cap = WAL segment size in bytes here)
 	hs = append(hs, Hist{Mode: "ctrl", Codec: "v2", Cap: 128, K: 4})
 	if tier == "thorough" {
@@ -1977,6 +2127,13 @@ func main() {
 	weight := func(h Hist) int {
 		if h.Mode == "ctrl" {
 			return 500000
+		}
+		if h.Mode == "runs" {
+			w := 3000 * h.K * (h.K + 2)
+			if h.AllOffsets {
+				w *= 8
+			}
+			return w
 		}
 		if h.Mode == "corrupt" {
 			w := 200 * h.K * (h.K + 2)
